@@ -85,7 +85,21 @@ def s1_formula(ctx):
     # the weights iterated are the normalised weights: w / sum(w) (or unscaled when the sum is ~0)
     qn = CN + '._normalise_weights'
     ps = summarise(ctx, qn, policy=default_policy)
+    from ..lib import slot_memos
+    slots = slot_memos(ctx, ctx.fn(qn), ps)
+    skip = []
+    for sm in slots:
+        what = '_normalise_weights hands out the remembered normalisation (self.%s) only for the weights it was computed from' % sm['result']
+        if sm['verdict'][0] == 'sound':
+            ctx.holds('C10.S1', what + ' (the question is kept as the snapshot %s)' % fmt(sm['key'])[:60], ctx.fn(qn).site())
+        elif sm['verdict'][0] == 'unsound':
+            ctx.violation('C10.S1', what, ctx.fn(qn).site(), sm['verdict'][1], key='C10.S1|slot-memo|%s' % sm['result'])
+        else:
+            ctx.undecided('C10.S1', what, ctx.fn(qn).site(), sm['verdict'][1])
+        skip.extend(sm['hits'])
     for p in normal(ps):
+        if any(p is h_ for h_ in skip):
+            continue        # the remembered answer equals the computing path that stored it when the slot is sound (judged above)
         close = None
         for c, v, _ in p.conds:
             if call_is(c, 'ISCLOSE') and c[2][0] == SUMW and c[2][1] == ZERO:
@@ -108,7 +122,8 @@ def s1_formula(ctx):
     for s in sp:
         asset, w, wsrc = loop_asset_weight(s['loop'])
         # the container iterated is what _normalise_weights returned on this path: the raw weights (~0 sum) or the normalised comprehension
-        ok = wsrc == V('weights') or (wsrc[0] == 'comp' and wsrc[1] == 'dict')
+        ok = wsrc == V('weights') or (wsrc[0] == 'comp' and wsrc[1] == 'dict') or \
+            (wsrc[0] == 'attr' and wsrc[1] == V('self') and any(sm['result'] == wsrc[2] for sm in slots))       # the remembered normalisation, judged above
         ctx.require(ok, 'C10.S1', 'the sizing loop runs over the normalised weights', s['loop'].site, fmt(wsrc)[:100], key='C10.S1|loop-source')
     ws = writers_of_attr(ctx.M, 'cash_buffer_percentage', owner=CN)
     ws = [w for w in ws if w.fn.cls is not None and w.fn.cls.name == CN]
